@@ -438,7 +438,8 @@ func (tr *trans) call(v ssa.Value, c *ssa.CallCommon, st State) {
 		args = append(args, tr.val(a))
 	}
 	tr.curCallArgs = c.Args
-	defer func() { tr.curCallArgs = nil }()
+	tr.curCallee = c.Value
+	defer func() { tr.curCallArgs = nil; tr.curCallee = nil }()
 	sig := c.Signature()
 	if c.IsInvoke() {
 		recv := tr.val(c.Value)
@@ -671,6 +672,39 @@ func (tr *trans) applyContract(fc *FuncContract, sig *types.Signature, key strin
 		env.vars[n] = sv
 		env.vars[n+"0"] = sv
 	}
+	// call of a local closure: its contract speaks about the captured variables by name - their content before
+	// the call (name0, and name in preconditions) and after it (name in postconditions)
+	var capCells map[string]*Loc
+	if mc, ok := tr.curCallee.(*ssa.MakeClosure); ok {
+		if g, ok := mc.Fn.(*ssa.Function); ok {
+			capCells = map[string]*Loc{}
+			for i, fv := range g.FreeVars {
+				if i < len(mc.Bindings) {
+					if _, isPtr := mc.Bindings[i].Type().Underlying().(*types.Pointer); isPtr {
+						if _, done := tr.vals[mc.Bindings[i]]; done || isAlloc(mc.Bindings[i]) {
+							capCells[fv.Name()] = tr.locOf(mc.Bindings[i])
+						}
+					}
+				}
+			}
+			for name := range fc.Pure {
+				if fr, ok := tr.pure[name]; ok {
+					env.vars[name] = SV{kind: "fn", fn: fr, sort: "fn"}
+				}
+			}
+			preSt := st.clone()
+			env.lookup = func(name string) (SV, bool) {
+				base := strings.TrimSuffix(name, "0")
+				if l, ok := capCells[name]; ok {
+					return env.goSV(tr.load(preSt, l), l.ty), true
+				}
+				if l, ok := capCells[base]; ok && base != name {
+					return env.goSV(tr.load(preSt, l), l.ty), true
+				}
+				return SV{}, false
+			}
+		}
+	}
 	for i := 0; i < sig.Params().Len() && i < len(args); i++ {
 		p := sig.Params().At(i)
 		n := p.Name()
@@ -792,6 +826,18 @@ func (tr *trans) applyContract(fc *FuncContract, sig *types.Signature, key strin
 	env2 := *env
 	env2.st = st
 	env2.old = pre
+	if capCells != nil {
+		env2.lookup = func(name string) (SV, bool) {
+			if l, ok := capCells[name]; ok {
+				return env2.goSV(tr.load(st, l), l.ty), true
+			}
+			base := strings.TrimSuffix(name, "0")
+			if l, ok := capCells[base]; ok && base != name {
+				return env2.goSV(tr.load(pre, l), l.ty), true
+			}
+			return SV{}, false
+		}
+	}
 	env2.vars = map[string]SV{}
 	for k, v := range env.vars {
 		env2.vars[k] = v
@@ -1567,3 +1613,5 @@ func (tr *trans) sortedByClosure(c *ssa.CallCommon, s Term, st State) bool {
 	tr.note("sort.Slice with comparator " + funcKey(g) + ": the result is ordered by the comparator's contract (that the comparator is a strict weak order is assumed)")
 	return true
 }
+
+func isAlloc(v ssa.Value) bool { _, ok := v.(*ssa.Alloc); return ok }
